@@ -6,6 +6,7 @@ import json
 from hypothesis import strategies as st
 
 from ..common import Violation, Skip, run_cases, guarded, rejection_types
+from ..gen.templates import programs_or_templates
 from ..gen.programs import programs, build, render_program, CFG_FIELDS
 from .. import sched
 from ..charness import emit_c, CompileRejected, make_driver, build_and_run, parse_output, sanitizer_kind, close, CTYPE
@@ -161,7 +162,7 @@ def check_case(case):
 def case_strategy(names, max_steps=3):
     return st.fixed_dictionaries(
         {
-            "prog": programs(max_stmts=10),
+            "prog": programs_or_templates(15, max_stmts=10),
             "steps": st.lists(step_strategy(names), min_size=0, max_size=max_steps),
             "val": st.fixed_dictionaries(
                 {"fill": st.integers(0, 5), "layout": st.integers(0, 5), "cfg": st.lists(st.integers(0, 20), min_size=5, max_size=5), "pick": st.integers(0, 50)}
